@@ -59,7 +59,9 @@ def sliceValue : List Slice → Val → Option Val
       match rest with
       | [] => some (.arr l')
       | _ :: _ => (l'.mapM (fun x => sliceValue rest x)).map Val.arr
-  | _ :: _, _ => none
+  | s :: rest, v =>
+    -- a scalar: indexing and slicing raise; a last `:` entry does nothing at all
+    if (isIndex s).isNone && !isRange s && rest.isEmpty then some v else none
 
 mutual
 /-- `numpy.ndarray.shape` of a regular nested list -/
@@ -244,23 +246,28 @@ def splitQ : Str → Option (Str × Str)
 inductive Count where
   | any | one
 
+/-- `if source: … self.sources[source].nodes.query(query) else: … self.nodes.query(query)` -/
+def requestNodes (env : Env) (source q : Str) : Except String (List Node) :=
+  if source.isEmpty then
+    (if env.nodes.isEmpty then .error "request: no local nodes"
+     else .ok (query env.nodes (parseQuery q)))
+  else match env.sources.find? (fun s => s.1 = source) with
+    | none => .error "request: no such source"
+    | some s => .ok (query s.2 (parseQuery q))
+
+/-- `if count: … len(nodes)!=count → raise` -/
+def countCheck (cnt : Count) (ns : List Node) : Except String (List Node) :=
+  match cnt with
+  | .any => .ok ns
+  | .one => if ns.length = 1 then .ok ns else .error "request: count"
+
 def request (env : Env) (path : Str) (cnt : Count) : Except String (List Node) :=
   match splitQ path with
   | none => .error "request: not source?query"
   | some (source, q) =>
-    let found : Except String (List Node) :=
-      if !source.isEmpty then
-        match env.sources.find? (fun s => s.1 = source) with
-        | none => .error "request: no such source"
-        | some s => .ok (query s.2 (parseQuery q))
-      else if env.nodes.isEmpty then .error "request: no local nodes"
-      else .ok (query env.nodes (parseQuery q))
-    match found with
+    match requestNodes env source q with
     | .error e => .error e
-    | .ok ns =>
-      match cnt with
-      | .any => .ok ns
-      | .one => if ns.length = 1 then .ok ns else .error "request: count"
+    | .ok ns => countCheck cnt ns
 
 /-! ### injection -/
 
@@ -502,6 +509,8 @@ def specSlice : List Sl → Val → Option Val
     match rest with
     | [] => some (.arr (pySlice l a b))
     | _ :: _ => ((pySlice l a b).mapM (fun x => specSlice rest x)).map Val.arr
+  | [.idx n], .str s => (s[n]?).map (fun c => Val.str [c])       -- text is sliced like a Python str
+  | [.rng a b], .str s => some (.str (pySlice s a b))
   | _ :: _, _ => none
 
 /-- abstract node: path components, dtype, unit, value, constraints -/
@@ -661,9 +670,16 @@ inductive HOp where
   | write (i : Nat) (f : Node → Node)     -- i-th entry of the target's list
   | append (n : Node)
 
+/-- assignment to the object at address `a` -/
+def writeAt (h : Heap) (a : Nat) (f : Node → Node) : Heap :=
+  match h, a with
+  | [], _ => []
+  | x :: t, 0 => f x :: t
+  | x :: t, a + 1 => x :: writeAt t a f
+
 def hStep (s : Heap × List Nat) : HOp → Heap × List Nat
   | .write i f => match s.2[i]? with
-    | some a => (s.1.modify a f, s.2)
+    | some a => (writeAt s.1 a f, s.2)
     | none => s
   | .append n => (s.1 ++ [n], s.2 ++ [s.1.length])
 
